@@ -1,3 +1,3 @@
 From Coq Require Import ExtrOcamlBasic.
 From NV Require Import Extract.Dispatch.
-Extraction "model.ml" Dispatch.run.
+Extraction "model.ml" Dispatch.dispatch.
